@@ -57,15 +57,16 @@ type opdef struct {
 }
 
 type scen struct {
-	w      *chain.World
-	ops    []opdef
-	names  []string
-	cons   []sigs.Account // cons[0] is IPRPC-eligible, cons[1] is a regular subscription
-	provs  []sigs.Account
-	funder sigs.Account
-	val    sigs.Account
-	bonus  bool   // variant: provider bonus pools alive, a served regular subscription, IPRPC funds in a second denom
-	denom  string // denom of the IPRPC funds (bond denom, or "uibc" in the bonus variant)
+	w       *chain.World
+	ops     []opdef
+	names   []string
+	cons    []sigs.Account // cons[0] is IPRPC-eligible, cons[1] is a regular subscription
+	provs   []sigs.Account
+	funder  sigs.Account
+	val     sigs.Account
+	fixViol []ev.Violation // violations met while building the fixture
+	bonus   bool           // variant: provider bonus pools alive, a served regular subscription, IPRPC funds in a second denom
+	denom   string         // denom of the IPRPC funds (bond denom, or "uibc" in the bonus variant)
 
 	fixCur   uint64
 	fixFunds map[uint64]map[string]sdk.Int
@@ -161,10 +162,12 @@ func build(bonus bool) *scen {
 		w.Must("fixture pay", w.Pay(rs.Provider, rs))
 	}
 	if viol, _ := s.boundary(); len(viol) > 0 {
-		panic(fmt.Sprintf("fixture: boundary: %+v", viol))
+		// the oracle fails while the fixture is being built (it is built with real transactions and blocks too):
+		// that is a finding of the check, reported by the first operation of every history
+		s.fixViol = viol
 	}
 	w.AdvanceToNextEpoch(chain.BlockDt)
-	if bonus {
+	if bonus && len(s.fixViol) == 0 {
 		// let the regular subscription's month expire and its payout (blocks-to-save later) run
 		sub, ok := w.Keepers.Subscription.GetSubscription(w.Ctx, s.cons[1].Addr.String())
 		if !ok {
@@ -612,6 +615,9 @@ func (s *scen) fund(o opdef) bfs.Step {
 }
 
 func (s *scen) Apply(op int) bfs.Step {
+	if len(s.fixViol) > 0 {
+		return bfs.Step{Accepted: true, Prune: true, Obs: "violation-in-fixture", Viol: s.fixViol}
+	}
 	o := s.ops[op]
 	w := s.w
 	obs := ""
